@@ -140,11 +140,12 @@ def _one(args):
         new_src = _apply(src, e)
         if new_src is None:
             return (m["name"], "stale", "anchor text not found exactly once")
+        overlay[e["file"]] = new_src
+    for rel, new_src in overlay.items():
         try:
-            compile(new_src, path, "exec", dont_inherit=True)
+            compile(new_src, os.path.join(root, rel), "exec", dont_inherit=True)
         except SyntaxError as ex:
             return (m["name"], "broken", f"variant does not compile: {ex}")
-        overlay[e["file"]] = new_src
     import warnings
     warnings.simplefilter("ignore")
     res = analyse(prop, root, tier="quick", overlay=overlay)
